@@ -12,6 +12,10 @@ package doapprove
 //vc:func Main
 //vc:  requires[C12] !lockHeld && !lockClosed
 //vc:  ensures[C12] @lockKeptUntilExit lockHeld ==> lockClosed
+// the lock is released by the deferred Close only: an explicit Close of the
+// lock file before the status, history and log files are written would let a
+// second run in ("#?": every call of Close in this function, there is none now)
+//vc:  assert[C12] at ".Close()"#? @lockReleasedOnlyAtExit arg0 != lockFileRef
 //vc:  requires[C13] InvAll(statusFile, hasOK, tOK, pOK, hasCmp, tCmp, pCmp, chg, now)
 // C13: a difference found by the compare (a line "comp: ***..." anywhere in the run log) reaches the status file as DIFF
 //vc:  invariant[C13] 1 "for _, line := range lines" @diffLineRemembered forall i int :: { lines[i] } 0 <= i && i <= rangeindex && strings.HasPrefix(lines[i], "comp: ***") ==> changed
